@@ -207,6 +207,22 @@ impl Property for C13 {
         }
         let seta: ResultTextSelectionSet = ra.iter().cloned().collect();
         let setb: ResultTextSelectionSet = rb.iter().cloned().collect();
+        // the set as a container: every way of walking it yields exactly the selections it was built from, in that order
+        {
+            out.checks += 1;
+            let want: Vec<(usize, usize)> = a.clone();
+            let by_ref: Vec<(usize, usize)> = seta.inner().iter().map(|t| (t.begin(), t.end())).collect();
+            let owned = catch(|| seta.inner().clone().into_iter().map(|t| (t.begin(), t.end())).collect::<Vec<_>>());
+            let high: Vec<(usize, usize)> = seta.iter().map(|t| (t.begin(), t.end())).collect();
+            if by_ref != want || high != want || seta.inner().len() != want.len() {
+                out.fail("container", "iter", format!("set built from {:?}: iter() gives {:?}, ResultTextSelectionSet::iter() gives {:?}, len() = {}", want, by_ref, high, seta.inner().len()));
+            }
+            match owned {
+                Ok(v) if v == want => {}
+                Ok(v) => out.fail("container", "into_iter", format!("set built from {:?}: into_iter() gives {:?}", want, v)),
+                Err(p) => out.fail("panic", format!("container|{}", p.signature()), format!("TextSelectionSet::into_iter panicked: {}", p.msg)),
+            }
+        }
         let single = a.len() == 1 && b.len() == 1;
         let shp = shape(&a, &b);
         out.label(shp);
